@@ -164,23 +164,75 @@ end
 
 /-! ### horizontal folds -/
 
-/-- what is needed of the horizontal fold `hsum` of `L` lanes and its abstract counterpart `hfoldA`:
-it transports the relation, merges the index lists of the lanes, and adds at most `hd` roundings
-(and none when every lane is still empty) -/
-structure HFoldSem {T : Type} {S : ScalarSpec T} {fm : T → T → T → T} (F : FloatSem S fm) (L hd : ℕ)
-    (hsum : (ℕ → T) → T) (hfoldA : (ℕ → Ab) → Ab) : Prop where
-  rel : ∀ (term : ℕ → ℝ) (f : ℕ → T) (g : ℕ → Ab), (∀ k, k < L → RelE F term (f k) (g k)) → RelE F term (hsum f) (hfoldA g)
+/-- what is needed of the abstract counterpart `hfoldA` of a horizontal fold over `L` lanes: it merges the index lists
+of the lanes, adds at most `hd` roundings, and none when every lane is still empty -/
+structure HFoldShape (L hd : ℕ) (hfoldA : (ℕ → Ab) → Ab) : Prop where
   cover : ∀ g : ℕ → Ab, ((hfoldA g).1 : Multiset ℕ) = sumR (· + ·) 0 (fun k => ((g k).1 : Multiset ℕ)) L
   depth : ∀ (g : ℕ → Ab) (d : ℕ), (∀ k, k < L → (g k).2 ≤ d) → (hfoldA g).2 ≤ d + hd
   empty : ∀ g : ℕ → Ab, (∀ k, k < L → g k = ([], 0)) → hfoldA g = ([], 0)
 
-/-- the one-lane fold of the Fallback backend -/
-theorem hfold1_sem {T : Type} {S : ScalarSpec T} {fm : T → T → T → T} (F : FloatSem S fm) :
-    HFoldSem F 1 0 (fun f => f 0) (fun g => g 0) where
-  rel := fun _ _ _ h => h 0 (by omega)
+/-- … and of the float fold `hsum` itself: it transports the relation -/
+structure HFoldSem {T : Type} {S : ScalarSpec T} {fm : T → T → T → T} (F : FloatSem S fm) (L hd : ℕ)
+    (hsum : (ℕ → T) → T) (hfoldA : (ℕ → Ab) → Ab) : Prop where
+  shape : HFoldShape L hd hfoldA
+  rel : ∀ (term : ℕ → ℝ) (f : ℕ → T) (g : ℕ → Ab), (∀ k, k < L → RelE F term (f k) (g k)) → RelE F term (hsum f) (hfoldA g)
+
+theorem hfold1_shape : HFoldShape 1 0 (fun g => g 0) where
   cover := fun g => by simp [sumR]
   depth := fun g d h => by simpa using h 0 (by omega)
   empty := fun g h => h 0 (by omega)
+
+/-- the one-lane fold of the Fallback backend -/
+theorem hfold1_sem {T : Type} {S : ScalarSpec T} {fm : T → T → T → T} (F : FloatSem S fm) :
+    HFoldSem F 1 0 (fun f => f 0) (fun g => g 0) where
+  shape := hfold1_shape
+  rel := fun _ _ _ h => h 0 (by omega)
+
+/-- sequential fold `((f 0 ⊕ f 1) ⊕ …) ⊕ f (L−1)` (no initial element): depth `L − 1` -/
+def seqFold {A : Type} (op : A → A → A) (f : ℕ → A) : ℕ → A
+  | 0 => f 0
+  | 1 => f 0
+  | n + 2 => op (seqFold op f (n + 1)) (f (n + 1))
+
+theorem addA_list (x y : Ab) : (addA x y).1 = x.1 ++ y.1 := by
+  unfold addA; split
+  · rename_i h; rw [h.1, h.2]; rfl
+  · rfl
+
+theorem addA_depth' (x y : Ab) (d : ℕ) (hx : x.2 ≤ d) (hy : y.2 ≤ d) : (addA x y).2 ≤ d + 1 := by
+  unfold addA; split <;> simp <;> omega
+
+theorem seqFold_shape (L : ℕ) (hL : 0 < L) : HFoldShape L (L - 1) (fun g => seqFold addA g L) where
+  cover := by
+    intro g
+    obtain ⟨n, rfl⟩ : ∃ n, L = n + 1 := ⟨L - 1, by omega⟩
+    induction n with
+    | zero => simp [seqFold, sumR]
+    | succ n ih =>
+      show ((seqFold addA g (n + 2)).1 : Multiset ℕ) = _
+      rw [seqFold, addA_list, sumR_succ, ← ih (by omega)]; rfl
+  depth := by
+    intro g d h
+    obtain ⟨n, rfl⟩ : ∃ n, L = n + 1 := ⟨L - 1, by omega⟩
+    show (seqFold addA g (n + 1)).2 ≤ d + n
+    clear hL
+    induction n with
+    | zero => simpa [seqFold] using h 0 (by omega)
+    | succ n ih =>
+      rw [seqFold]
+      have h1 := ih (fun k hk => h k (by omega))
+      have h2 := h (n + 1) (by omega)
+      have := addA_depth' (seqFold addA g (n + 1)) (g (n + 1)) (d + n) h1 (by omega)
+      omega
+  empty := by
+    intro g h
+    obtain ⟨n, rfl⟩ : ∃ n, L = n + 1 := ⟨L - 1, by omega⟩
+    clear hL
+    induction n with
+    | zero => simpa [seqFold] using h 0 (by omega)
+    | succ n ih =>
+      rw [seqFold, ih (fun k hk => h k (by omega)), h (n + 1) (by omega)]
+      simp [addA]
 
 /-! ### cover: every index exactly once -/
 
@@ -192,9 +244,9 @@ theorem sumR_singletons (n : ℕ) : sumR (· + ·) (0 : Multiset ℕ) (fun i => 
 theorem multiset_monoid : CommMonoidOn (· + · : Multiset ℕ → Multiset ℕ → Multiset ℕ) 0 :=
   ⟨fun x y z => add_assoc x y z, fun x y => add_comm x y, fun x => zero_add x⟩
 
-theorem cover {T : Type} {S : ScalarSpec T} {fm : T → T → T → T} (F : FloatSem S fm) (E : Env) (L hd dims : ℕ)
-    (hL : 0 < L) (hsmall : L * 8 < usizeMod) (hsum : (ℕ → T) → T) (hfoldA : (ℕ → Ab) → Ab)
-    (HF : HFoldSem F L hd hsum hfoldA) :
+theorem cover (E : Env) (L hd dims : ℕ)
+    (hL : 0 < L) (hsmall : L * 8 < usizeMod) (hfoldA : (ℕ → Ab) → Ab)
+    (HF : HFoldShape L hd hfoldA) :
     ((reduceModel (opsA hfoldA) L dims).1 : Multiset ℕ) = Multiset.range dims := by
   have key := reduceModel_rel (fun (x : Ab) (m : Multiset ℕ) => (x.1 : Multiset ℕ) = m)
     (fun (x : Ab) (m : Multiset ℕ) => (x.1 : Multiset ℕ) = m)
@@ -377,9 +429,9 @@ theorem bound_of_rel (E : Env) (L hd dims : ℕ) (hL : 0 < L) (hsmall : L * 8 < 
     (hfin : F.Fin v) (hk : ((dims + 3 : ℕ) : ℝ) * F.u < 1) :
     |F.val v - ((List.range dims).map term).sum|
       ≤ gamma F.u (dims + 3) * ((List.range dims).map (fun i => |term i|)).sum := by
-  have happ := (hrel hfin).mono F.hu (depth_bound hfoldA L hd dims hL hhd HF.depth HF.empty)
+  have happ := (hrel hfin).mono F.hu (depth_bound hfoldA L hd dims hL hhd HF.shape.depth HF.shape.empty)
   have herr := happ.error
-  have hcov := cover F E L hd dims hL hsmall hsum hfoldA HF
+  have hcov := cover E L hd dims hL hsmall hfoldA HF.shape
   have hperm : (reduceModel (opsA hfoldA) L dims).1.Perm (List.range dims) := by
     have : ((reduceModel (opsA hfoldA) L dims).1 : Multiset ℕ) = ((List.range dims : List ℕ) : Multiset ℕ) := by
       rw [hcov]; rfl
@@ -420,4 +472,207 @@ theorem dot_bound (E : Env) (L hd dims : ℕ) (hL : 0 < L) (hsmall : L * 8 < usi
     (fun x y i _ h => relE_tail F a b hnu x y i h)
 
 end
+
+/-! ### the sequential fold transports the relation; building `FloatSem` from the primitive assumptions -/
+
+section
+variable {T : Type} {S : ScalarSpec T} {fm : T → T → T → T}
+
+theorem seqFold_sem (F : FloatSem S fm) (L : ℕ) (hL : 0 < L) :
+    HFoldSem F L (L - 1) (fun f => seqFold S.add f L) (fun g => seqFold addA g L) where
+  shape := seqFold_shape L hL
+  rel := by
+    intro term f g h
+    obtain ⟨n, rfl⟩ : ∃ n, L = n + 1 := ⟨L - 1, by omega⟩
+    clear hL
+    induction n with
+    | zero => simpa [seqFold] using h 0 (by omega)
+    | succ n ih =>
+      show RelE F term (seqFold S.add f (n + 2)) (seqFold addA g (n + 2))
+      rw [seqFold, seqFold]
+      exact relE_add F term _ _ _ _ (ih (fun k hk => h k (by omega))) (h (n + 1) (by omega))
+
+/-- unfused multiply-add (`Fallback`, `Avx2`): `fm x y acc = (x * y) + acc`, two roundings -/
+def FloatSem.ofUnfused (val : T → ℝ) (u : ℝ) (hu : 0 ≤ u) (Fin : T → Prop) (NoUf : T → T → Prop)
+    (zero_val : val S.zero = 0)
+    (add_std : ∀ x y, Fin (S.add x y) → Fin x ∧ Fin y ∧ ∃ δ, |δ| ≤ u ∧ val (S.add x y) = (val x + val y) * (1 + δ))
+    (mul_std : ∀ x y, Fin (S.mul x y) → NoUf x y → ∃ δ, |δ| ≤ u ∧ val (S.mul x y) = val x * val y * (1 + δ)) :
+    FloatSem S (fun x y acc => S.add (S.mul x y) acc) where
+  val := val
+  u := u
+  hu := hu
+  Fin := Fin
+  NoUf := NoUf
+  zero_val := zero_val
+  add_std := add_std
+  mul_std := mul_std
+  fm_std := by
+    intro x y acc hf hnu
+    obtain ⟨hm, ha, δ₂, h2, e⟩ := add_std _ _ hf
+    obtain ⟨δ₁, h1, e1⟩ := mul_std _ _ hm hnu
+    exact ⟨ha, δ₁, δ₂, h1, h2, by rw [e, e1]⟩
+
+/-- fused multiply-add (`Avx2Fma`, `Avx512`, NEON): one rounding of `x·y + acc` -/
+def FloatSem.ofFused (val : T → ℝ) (u : ℝ) (hu : 0 ≤ u) (Fin : T → Prop) (NoUf : T → T → Prop)
+    (zero_val : val S.zero = 0)
+    (add_std : ∀ x y, Fin (S.add x y) → Fin x ∧ Fin y ∧ ∃ δ, |δ| ≤ u ∧ val (S.add x y) = (val x + val y) * (1 + δ))
+    (mul_std : ∀ x y, Fin (S.mul x y) → NoUf x y → ∃ δ, |δ| ≤ u ∧ val (S.mul x y) = val x * val y * (1 + δ))
+    (fma_std : ∀ x y acc, Fin (fm x y acc) → NoUf x y →
+      Fin acc ∧ ∃ δ, |δ| ≤ u ∧ val (fm x y acc) = (val x * val y + val acc) * (1 + δ)) :
+    FloatSem S fm where
+  val := val
+  u := u
+  hu := hu
+  Fin := Fin
+  NoUf := NoUf
+  zero_val := zero_val
+  add_std := add_std
+  mul_std := mul_std
+  fm_std := by
+    intro x y acc hf hnu
+    obtain ⟨ha, δ, h, e⟩ := fma_std x y acc hf hnu
+    exact ⟨ha, 0, δ, by simpa using hu, h, by rw [e]; ring⟩
+
+end
+
+/-! ### exactness: integer-valued data whose absolute sum fits the significand -/
+
+def IsInt (r : ℝ) : Prop := ∃ z : ℤ, r = z
+
+theorem IsInt.add {r s : ℝ} (h1 : IsInt r) (h2 : IsInt s) : IsInt (r + s) := by
+  obtain ⟨a, rfl⟩ := h1; obtain ⟨b, rfl⟩ := h2; exact ⟨a + b, by push_cast; ring⟩
+theorem IsInt.mul {r s : ℝ} (h1 : IsInt r) (h2 : IsInt s) : IsInt (r * s) := by
+  obtain ⟨a, rfl⟩ := h1; obtain ⟨b, rfl⟩ := h2; exact ⟨a * b, by push_cast; ring⟩
+theorem IsInt.zero : IsInt 0 := ⟨0, by simp⟩
+theorem IsInt.list_sum (term : ℕ → ℝ) (h : ∀ i, IsInt (term i)) (l : List ℕ) : IsInt (l.map term).sum := by
+  induction l with
+  | nil => simpa using IsInt.zero
+  | cons i l ih => simpa using (h i).add ih
+
+/-- What is assumed of the arithmetic for the exactness claim (true of IEEE formats with `P = 2^p`): operations on
+finite integer-valued operands whose exact result is at most `P` in magnitude are exact (and finite). -/
+structure ExactSem {T : Type} (S : ScalarSpec T) (fm : T → T → T → T) where
+  val : T → ℝ
+  Fin : T → Prop
+  P : ℝ
+  zero_val : val S.zero = 0
+  zero_fin : Fin S.zero
+  add_exact : ∀ x y, Fin x → Fin y → IsInt (val x) → IsInt (val y) → |val x + val y| ≤ P →
+    Fin (S.add x y) ∧ val (S.add x y) = val x + val y
+  mul_exact : ∀ x y, Fin x → Fin y → IsInt (val x) → IsInt (val y) → |val x * val y| ≤ P →
+    Fin (S.mul x y) ∧ val (S.mul x y) = val x * val y
+  fm_exact : ∀ x y acc, Fin x → Fin y → Fin acc → IsInt (val x) → IsInt (val y) → IsInt (val acc) →
+    |val x * val y| ≤ P → |val x * val y + val acc| ≤ P →
+    Fin (fm x y acc) ∧ val (fm x y acc) = val x * val y + val acc
+
+section
+variable {T : Type} {S : ScalarSpec T} {fm : T → T → T → T} (X : ExactSem S fm) (a b : ℕ → T)
+
+def termX (i : ℕ) : ℝ := X.val (a i) * X.val (b i)
+
+/-- as long as the absolute values of the absorbed terms sum to at most `P`, the partial result is finite and
+*exactly* the sum of those terms -/
+def RelX (x : T) (y : Ab) : Prop :=
+  (y.1.map (fun i => |termX X a b i|)).sum ≤ X.P → X.Fin x ∧ X.val x = (y.1.map (termX X a b)).sum
+
+theorem abs_list_sum_le (term : ℕ → ℝ) (l : List ℕ) : |(l.map term).sum| ≤ (l.map (fun i => |term i|)).sum := by
+  induction l with
+  | nil => simp
+  | cons i l ih => simp only [List.map_cons, List.sum_cons]; exact (abs_add_le _ _).trans (by linarith)
+
+theorem abs_sum_nonneg (term : ℕ → ℝ) (l : List ℕ) : 0 ≤ (l.map (fun i => |term i|)).sum :=
+  List.sum_nonneg (by intro x hx; obtain ⟨i, _, rfl⟩ := List.mem_map.mp hx; exact abs_nonneg _)
+
+variable (hin : ∀ i, X.Fin (a i) ∧ X.Fin (b i) ∧ IsInt (X.val (a i)) ∧ IsInt (X.val (b i)))
+include hin
+
+theorem termX_int (i : ℕ) : IsInt (termX X a b i) := (hin i).2.2.1.mul (hin i).2.2.2
+
+theorem relX_step {x : T} {y : Ab} {z : T} (i : ℕ) (h : RelX X a b x y)
+    (hz : X.Fin x → IsInt (X.val x) → |termX X a b i| ≤ X.P → |termX X a b i + X.val x| ≤ X.P →
+      X.Fin z ∧ X.val z = termX X a b i + X.val x) :
+    RelX X a b z (laneA y i) := by
+  intro hP
+  have hP' : (y.1.map (fun i => |termX X a b i|)).sum + |termX X a b i| ≤ X.P := by
+    simpa [laneA, List.map_append, List.sum_append] using hP
+  have h0 := abs_sum_nonneg (termX X a b) y.1
+  obtain ⟨hfx, ex⟩ := h (by linarith [abs_nonneg (termX X a b i)])
+  have hint : IsInt (X.val x) := by rw [ex]; exact IsInt.list_sum _ (termX_int X a b hin) _
+  have hb : |termX X a b i + X.val x| ≤ X.P := by
+    rw [ex]
+    exact (abs_add_le _ _).trans (by linarith [abs_list_sum_le (termX X a b) y.1])
+  obtain ⟨hfz, ez⟩ := hz hfx hint (by linarith) hb
+  refine ⟨hfz, ?_⟩
+  simp only [laneA, List.map_append, List.sum_append, List.map_cons, List.map_nil, List.sum_cons, List.sum_nil]
+  rw [ez, ex]; ring
+
+theorem relX_lane (x : T) (y : Ab) (i : ℕ) (h : RelX X a b x y) : RelX X a b (fm (a i) (b i) x) (laneA y i) :=
+  relX_step X a b hin i h (fun hfx hint h1 h2 =>
+    X.fm_exact _ _ _ (hin i).1 (hin i).2.1 hfx (hin i).2.2.1 (hin i).2.2.2 hint h1 h2)
+
+theorem relX_tail (x : T) (y : Ab) (i : ℕ) (h : RelX X a b x y) :
+    RelX X a b (S.add x (S.mul (a i) (b i))) (laneA y i) := by
+  apply relX_step X a b hin i h
+  intro hfx hint h1 h2
+  obtain ⟨hfm, em⟩ := X.mul_exact _ _ (hin i).1 (hin i).2.1 (hin i).2.2.1 (hin i).2.2.2 h1
+  have himul : IsInt (X.val (S.mul (a i) (b i))) := by rw [em]; exact termX_int X a b hin i
+  obtain ⟨hfa, ea⟩ := X.add_exact _ _ hfx hfm hint himul (by rw [em, add_comm]; exact h2)
+  exact ⟨hfa, by rw [ea, em]; unfold termX; ring⟩
+
+theorem relX_add (x x' : T) (y y' : Ab) (h1 : RelX X a b x y) (h2 : RelX X a b x' y') :
+    RelX X a b (S.add x x') (addA y y') := by
+  intro hP
+  rw [addA_list, List.map_append, List.sum_append] at hP
+  have n1 := abs_sum_nonneg (termX X a b) y.1
+  have n2 := abs_sum_nonneg (termX X a b) y'.1
+  obtain ⟨f1, e1⟩ := h1 (by linarith)
+  obtain ⟨f2, e2⟩ := h2 (by linarith)
+  have i1 : IsInt (X.val x) := by rw [e1]; exact IsInt.list_sum _ (termX_int X a b hin) _
+  have i2 : IsInt (X.val x') := by rw [e2]; exact IsInt.list_sum _ (termX_int X a b hin) _
+  have hb : |X.val x + X.val x'| ≤ X.P := by
+    rw [e1, e2]
+    exact (abs_add_le _ _).trans (by linarith [abs_list_sum_le (termX X a b) y.1, abs_list_sum_le (termX X a b) y'.1])
+  obtain ⟨f, e⟩ := X.add_exact _ _ f1 f2 i1 i2 hb
+  exact ⟨f, by rw [addA_list, List.map_append, List.sum_append, e, e1, e2]⟩
+
+theorem relX_zero : RelX X a b S.zero ([], 0) := fun _ => ⟨X.zero_fin, by simp [X.zero_val]⟩
+
+omit hin in
+/-- the sequential fold (and the one-lane fold) transport exactness -/
+theorem seqFold_relX (hin' : ∀ i, X.Fin (a i) ∧ X.Fin (b i) ∧ IsInt (X.val (a i)) ∧ IsInt (X.val (b i)))
+    (L : ℕ) (hL : 0 < L) (f : ℕ → T) (g : ℕ → Ab) (h : ∀ k, k < L → RelX X a b (f k) (g k)) :
+    RelX X a b (seqFold S.add f L) (seqFold addA g L) := by
+  obtain ⟨n, rfl⟩ : ∃ n, L = n + 1 := ⟨L - 1, by omega⟩
+  clear hL
+  induction n with
+  | zero => simpa [seqFold] using h 0 (by omega)
+  | succ n ih =>
+    rw [seqFold, seqFold]
+    exact relX_add X a b hin' _ _ _ _ (ih (fun k hk => h k (by omega))) (h (n + 1) (by omega))
+
+/-- **C04 on the model (exactness, dot product).** integer-valued inputs with `Σ |aᵢ bᵢ| ≤ P`: the result is finite and
+exactly `Σ aᵢ bᵢ` — every element counted exactly once, whatever the lane count, fold and fusion -/
+theorem dot_exact (E : Env) (L hd dims : ℕ) (hL : 0 < L) (hsmall : L * 8 < usizeMod)
+    (hsum : (ℕ → T) → T) (hfoldA : (ℕ → Ab) → Ab) (HS : HFoldShape L hd hfoldA)
+    (hrelf : ∀ (f : ℕ → T) (g : ℕ → Ab), (∀ k, k < L → RelX X a b (f k) (g k)) → RelX X a b (hsum f) (hfoldA g))
+    (hP : ((List.range dims).map (fun i => |termX X a b i|)).sum ≤ X.P) :
+    X.Fin (reduceModel (dotOps S fm hsum a b) L dims)
+      ∧ X.val (reduceModel (dotOps S fm hsum a b) L dims) = ((List.range dims).map (termX X a b)).sum := by
+  have hrel := reduceModel_rel (RelX X a b) (RelX X a b) (dotOps S fm hsum a b) (opsA hfoldA) L dims hL
+    (relX_zero X a b hin)
+    (fun x y i _ h => relX_lane X a b hin x y i h)
+    (fun x y x' y' h1 h2 => relX_add X a b hin x y x' y' h1 h2)
+    hrelf
+    (fun x y i _ h => relX_tail X a b hin x y i h)
+  have hcov := cover E L hd dims hL hsmall hfoldA HS
+  have hperm : (reduceModel (opsA hfoldA) L dims).1.Perm (List.range dims) := by
+    have : ((reduceModel (opsA hfoldA) L dims).1 : Multiset ℕ) = ((List.range dims : List ℕ) : Multiset ℕ) := by
+      rw [hcov]; rfl
+    exact Quotient.exact this
+  have := hrel (by rw [(hperm.map _).sum_eq]; exact hP)
+  rw [(hperm.map _).sum_eq] at this
+  exact this
+
+end
+
 end Cfavml.FloatReduce
